@@ -84,6 +84,7 @@ theorem step_can (r : Router) (c : Call) (h : Good3 r.root) (h2 : Node.SrtS r.ro
         · exact ⟨h2, h3⟩
         · obtain ⟨op, hwf, hroot⟩ := deleteOk_root r t ts hp
           rw [hroot]; exact can_step _ op h h2 h3 hwf
+  | clone => exact ⟨(recell_SrtS r.root 0).2 h2, (recell_Cmp r.root 0).2 h3⟩
 
 /-- **Every reachable router has a canonical tree**: well-shaped, all sibling vectors sorted, maximally compressed -/
 theorem reachable_canon (r : Router) (h : Reachable r) : Canon r.root := by
